@@ -9,7 +9,7 @@ RULE = ("trees of generated programs (both standards; comments dropped / kept / 
         "statement leaves print in the order of the regenerated source. non-trivial = tree has >= 50 nodes"
         " Correspondence: on every third program the tree model Fp.Tree replays the recorded _set_parent / Base.__init__ events and its parent map, walk(), get_root() and get_child() are compared with the real tree's, node for node.")
 ASSUMPTIONS = ["string-level nodes: freshness of construction events is checked on observed trees, not proved"]
-TIE_MODULES = ["FparserModel.Tree"]
+TIE_MODULES = ["FparserModel.Tree", "FparserModel.Tree3", "FparserModel.Generated.Tree3Proto", "FparserModel.Props.Tree3"]
 
 
 def decorate(p, seed, mode):
@@ -89,4 +89,5 @@ def cases(tier, seed):
 
 
 def run(tier, rep, st):
+    util.sub_cosim(rep, tier, "cosim_tree3", "Fp.Tree3", 60, 600)
     engine.run_cases(__name__, cases(tier, rep.seed), rep)
